@@ -1168,7 +1168,7 @@ class Executor:
             return self.droppy_cache[b]
         self.droppy_cache[b] = False
         r = False
-        if b in ('MutexGuard', 'RwLockReadGuard', 'RwLockWriteGuard'):
+        if b in ('MutexGuard', 'RwLockReadGuard', 'RwLockWriteGuard') or b in getattr(self, 'drop_events', ()):
             r = True
         elif (b, 'Drop', 'drop') in self.fn_index:
             r = True
@@ -1255,6 +1255,8 @@ class Executor:
         if v.data.get('dropped'):
             yield st
             return
+        if b in getattr(self, 'drop_events', ()):
+            st.emit(Ev('DROP', obj=v, args={'ty': b}))
         if v.kind == 'closure':
             # drop glue of a closure: its by-value captures
             v.data['dropped'] = True
